@@ -32,17 +32,9 @@ Definition fuel_for (ts : list ptok) : nat := 40 + 20 * length ts.
 Definition oz_eqb := option_eqb Z.eqb.
 Definition olz_eqb := option_eqb zlist_eqb.
 
-(* which single repair of parseStringLiteral makes it agree with 7.8.4 on this literal *)
-Definition str_class (body : list Z) : Z :=
-  let sp := sv sv_spec body in
-  if olz_eqb (sv (sv_gen true false false) body) sp then 3
-  else if olz_eqb (sv (sv_gen false true false) body) sp then 4
-  else if olz_eqb (sv (sv_gen false false true) body) sp then 5
-  else 3.
-
 (* finding classes (open): 1 = relational operators associate to the right
    2 = hex / legacy-octal literal >= 2^63   3 = \\uD800-\\uDFFF escapes become U+FFFD
-   4 = octal escape above \\377   5 = backslash + LS/PS is not a line continuation
+   (4 = octal escape above \\377 and 5 = backslash + LS/PS were repaired in /repo 96a7b64)
    11-14 = pinned witnesses (comment with line terminator, numeric property name,
    no-in relational operand, detached regexp flags).  Classes 6-10 were repaired in
    /repo; their witnesses are now CProg regression cases that accept only the ES5 tree. *)
@@ -51,7 +43,7 @@ Definition verdict (c : case) : Z * Z :=
   | CExpr toks gen obs =>
       judge otree_eqb obs (option_map enc (parse_expr (fuel_for toks) toks)) (Some gen) 1
   | CNum text obs => judge oz_eqb obs (num_model text) (num_spec text) 2
-  | CStr body obs => judge olz_eqb obs (sv sv_model body) (sv sv_spec body) (str_class body)
+  | CStr body obs => judge olz_eqb obs (sv sv_model body) (sv sv_spec body) 3
   | CProg gen obs => judge otree_eqb obs (Some gen) (Some gen) 0
   | CPin cls spec pinned obs => judge otree_eqb obs pinned (Some spec) cls
   | CFun gen genDecl pf decl c1 c2 =>
